@@ -260,7 +260,8 @@ def units(tier):
     M = "vf.props.c08"
     us = []
     bases = [("f", [1], {}), ("ff", [2], {}), ("ff", [1, 1], {}), ("fdf", [2], {}), ("d", [], {}), ("", [], {}),
-             ("ff", [1, 1], {"packpos": True}), ("ffd", [2], {"attrs": "partial"}), ("dff", [1, 1], {"crc_at": "folder"})]
+             ("ff", [1, 1], {"packpos": True}), ("ffd", [2], {"attrs": "partial"}), ("dff", [1, 1], {"crc_at": "folder"}),
+             ("ff", [2], {"times": "none"}), ("fd", [1], {"attrs": "none"})]   # a foreign base without any mtime / attribute property
     if tier == "thorough":
         bases += [("fff", [2, 1], {"times": "partial"}), ("fef", [1, 1], {"emptyfile_vector": True}), ("fdff", [2, 1], {}),
                   ("fff", [1, 2], {"packcrc": True}), ("ff", [2], {"omit_numunpack": False})]
